@@ -102,6 +102,16 @@ def canon_value(t, v):
     return W.dec_values(t, w)[0]
 
 
+def latin1_fold(name):
+    """case-insensitive comparison key for ISO-8859-1 tag names: one-to-one lower-casing, character by character
+    (sharp-s has no single-character upper case and stays itself: 'Ma\xdf' and 'Mass' are different tags)"""
+    out = []
+    for ch in name:
+        l = ch.lower()
+        out.append(l if len(l) == 1 and ord(l) < 256 else ch)
+    return "".join(out)
+
+
 class Tag:
     def __init__(self, name, t, n, scalar, address):
         self.name, self.t, self.n, self.scalar, self.address = name, t, n, scalar, tuple(address)
@@ -153,7 +163,7 @@ class TagModel:
         if addr[0] == "sym":
             _, name, elm = addr
             for n, t in self.tags.items():
-                if n.lower() == name.lower():
+                if latin1_fold(n) == latin1_fold(name):
                     return t, elm, "sym"
             return None, elm, "sym"
         _, c, i, a, elm = addr
